@@ -1,4 +1,4 @@
-CONSTANTS NI = 2  NOps = 3  CountMax = 255  StickyDec = TRUE
+CONSTANTS NI = 2  NOps = 2  CountMax = 2  StickyDec = TRUE
 INIT Init
 NEXT Next
 INVARIANTS ImplRefinesContract ReadsSeeDenotation OutputsIntact BorrowedUntouched CountsNonNegative
